@@ -22,8 +22,8 @@ CONSTANT Focus   \* "C07" | "C13" | "all": which property's clauses are evaluate
 P7 == Focus \in {"C07", "all"}
 P13 == Focus \in {"C13", "all"}
 Traces == JsonDeserialize(IOEnv.TRACE_FILE)
-VARIABLES tid, l, phase, started, ended, ntask, open, held, verdict
-vars == <<tid, l, phase, started, ended, ntask, open, held, verdict>>
+VARIABLES tid, l, phase, started, ended, ntask, open, held, landed, verdict
+vars == <<tid, l, phase, started, ended, ntask, open, held, landed, verdict>>
 T == Traces[tid]
 Plan == T.plan
 Log == T.events
@@ -41,8 +41,8 @@ RECURSIVE SumNT(_)
 SumNT(i) == IF i = 0 THEN 0 ELSE Plan.ops[i].nt + SumNT(i - 1)
 HasCreate == "create-arrays" \in OpNames
 Init == /\ tid \in 1..Len(Traces) /\ l = 1 /\ phase = "idle" /\ started = {} /\ ended = {}
-        /\ ntask = [o \in OpNames |-> 0] /\ open = {} /\ held = [k \in {} |-> ""] /\ verdict = "ok"
-Fail(c) == verdict' = c /\ UNCHANGED <<tid, l, phase, started, ended, ntask, open, held>>
+        /\ ntask = [o \in OpNames |-> 0] /\ open = {} /\ held = [k \in {} |-> ""] /\ landed = [k \in {} |-> ""] /\ verdict = "ok"
+Fail(c) == verdict' = c /\ UNCHANGED <<tid, l, phase, started, ended, ntask, open, held, landed>>
 Adv == l' = l + 1 /\ UNCHANGED <<tid, verdict>>
 Ran(o) == o \in ended \/ o \in Computed        \* settled: finished in this computation, or skipped as already computed
 Step ==
@@ -51,47 +51,52 @@ Step ==
             IF P13 /\ (phase # "idle") THEN Fail("C13:ComputeStartOnce")
             ELSE IF P13 /\ (\E i \in 1..Len(Plan.ops) : Plan.ops[i].nmap # Plan.ops[i].nt) THEN Fail("C13:AdvertisedVsIterable")
             ELSE IF P13 /\ (Plan.total >= 0 /\ Plan.total # SumNT(Len(Plan.ops))) THEN Fail("C13:PlanTotal")
-            ELSE phase' = "run" /\ Adv /\ UNCHANGED <<started, ended, ntask, open, held>>
+            ELSE phase' = "run" /\ Adv /\ UNCHANGED <<started, ended, ntask, open, held, landed>>
        [] E.ev = "computeend" ->
             IF P13 /\ (phase # "run") THEN Fail("C13:ComputeEndOrder")
             ELSE IF P13 /\ (started # ended) THEN Fail("C13:ComputeEndBeforeOpEnd")
             ELSE IF P13 /\ (\E o \in OpNames \ Computed : o \notin ended) THEN Fail("C13:OperationNeverRan")
-            ELSE phase' = "done" /\ Adv /\ UNCHANGED <<started, ended, ntask, open, held>>
+            ELSE phase' = "done" /\ Adv /\ UNCHANGED <<started, ended, ntask, open, held, landed>>
        [] E.ev = "opstart" ->
             IF P13 /\ (phase # "run") THEN Fail("C13:EventOutsideCompute")
             ELSE IF P13 /\ (E.op \notin OpNames) THEN Fail("C13:UnknownOperation")
             ELSE IF P13 /\ (E.op \in started) THEN Fail("C13:OpStartOnce")
             ELSE IF P13 /\ (E.op \in Computed) THEN Fail("C09:ComputedOperationRan")
             ELSE IF P7 /\ (E.op # "create-arrays" /\ HasCreate /\ ~Ran("create-arrays")) THEN Fail("C07:CreateArraysFirst")
-            ELSE started' = started \cup {E.op} /\ Adv /\ UNCHANGED <<phase, ended, ntask, open, held>>
+            ELSE started' = started \cup {E.op} /\ Adv /\ UNCHANGED <<phase, ended, ntask, open, held, landed>>
        [] E.ev = "taskend" ->
             IF P13 /\ (E.op \notin started \ ended) THEN Fail("C13:TaskEndOutsideOperation")
-            ELSE ntask' = [ntask EXCEPT ![E.op] = @ + E.n] /\ Adv /\ UNCHANGED <<phase, started, ended, open, held>>
+            ELSE ntask' = [ntask EXCEPT ![E.op] = @ + E.n] /\ Adv /\ UNCHANGED <<phase, started, ended, open, held, landed>>
        [] E.ev = "opend" ->
             IF P13 /\ (E.op \notin started \ ended) THEN Fail("C13:OpEndOrder")
             ELSE IF P13 /\ (ntask[E.op] # OpRec(E.op).nt) THEN Fail("C13:TaskCountMismatch")
-            ELSE IF P7 /\ (\E w \in open : Produced(w[2]) /\ Prod(w[2]) = E.op) THEN Fail("C07:OpEndBeforeWriteReturned")
-            ELSE ended' = ended \cup {E.op} /\ Adv /\ UNCHANGED <<phase, started, ntask, open, held>>
+            \* every write of its outputs has returned -- except a DUPLICATE execution (backup twin, retry) still writing bytes
+            \* identical to what already landed in that key (twins are deliberately never cancelled on the worker)
+            ELSE IF P7 /\ (\E w \in open : Produced(w[2]) /\ Prod(w[2]) = E.op
+                              /\ ~(<<w[2], w[3]>> \in DOMAIN landed /\ landed[<<w[2], w[3]>>] = w[4])) THEN Fail("C07:OpEndBeforeWriteReturned")
+            ELSE ended' = ended \cup {E.op} /\ Adv /\ UNCHANGED <<phase, started, ntask, open, held, landed>>
        [] E.ev = "setcall" ->
             IF P7 /\ (E.data /\ Produced(E.arr) /\ Prod(E.arr) \notin started) THEN Fail("C07:WriteBeforeProducerStarted")
             ELSE IF P7 /\ (E.data /\ Produced(E.arr) /\ Prod(E.arr) \in ended
                     /\ ~(<<E.arr, E.key>> \in DOMAIN held /\ held[<<E.arr, E.key>>] = E.h)) THEN Fail("C07:LateWriteDiffers")
-            ELSE /\ open' = open \cup {<<E.id, E.arr>>}
+            ELSE /\ open' = open \cup {<<E.id, E.arr, E.key, E.h>>}
                  /\ held' = IF E.data THEN [k \in DOMAIN held \cup {<<E.arr, E.key>>} |-> IF k = <<E.arr, E.key>> THEN E.h ELSE held[k]] ELSE held
-                 /\ Adv /\ UNCHANGED <<phase, started, ended, ntask>>
+                 /\ Adv /\ UNCHANGED <<phase, started, ended, ntask, landed>>
        [] E.ev = "setret" ->
-            open' = open \ {<<E.id, E.arr>>} /\ Adv /\ UNCHANGED <<phase, started, ended, ntask, held>>
+            /\ open' = {w \in open : w[1] # E.id}
+            /\ landed' = IF E.data THEN [k \in DOMAIN landed \cup {<<E.arr, E.key>>} |-> IF k = <<E.arr, E.key>> THEN E.h ELSE landed[k]] ELSE landed
+            /\ Adv /\ UNCHANGED <<phase, started, ended, ntask, held>>
        [] E.ev = "getcall" ->
             IF P7 /\ (E.data /\ Produced(E.arr) /\ ~Ran(Prod(E.arr))) THEN Fail("C07:ReadBeforeProducerEnded")
-            ELSE Adv /\ UNCHANGED <<phase, started, ended, ntask, open, held>>
+            ELSE Adv /\ UNCHANGED <<phase, started, ended, ntask, open, held, landed>>
        [] E.ev = "getret" ->
             IF P7 /\ (E.data /\ Produced(E.arr) /\ ~E.hit) THEN Fail("C07:ReadFellBackToFill")
             ELSE IF P7 /\ (~E.data /\ E.arr \in ArrNames /\ ArrRec(E.arr).lazy /\ HasCreate /\ Ran("create-arrays")
                     /\ E.key = "zarr.json" /\ ~E.hit) THEN Fail("C07:MetadataMissingAfterCreate")
-            ELSE Adv /\ UNCHANGED <<phase, started, ended, ntask, open, held>>
+            ELSE Adv /\ UNCHANGED <<phase, started, ended, ntask, open, held, landed>>
        [] OTHER -> Fail("UnknownEvent")
 Finish == /\ verdict = "ok" /\ l = Len(Log) + 1
-          /\ IF P13 /\ (phase # "done") THEN Fail("C13:NoComputeEnd") ELSE (l' = l + 1 /\ UNCHANGED <<tid, phase, started, ended, ntask, open, held, verdict>>)
+          /\ IF P13 /\ (phase # "done") THEN Fail("C13:NoComputeEnd") ELSE (l' = l + 1 /\ UNCHANGED <<tid, phase, started, ended, ntask, open, held, landed, verdict>>)
 Next == Step \/ Finish
 Spec == Init /\ [][Next]_vars
 Final == verdict # "ok" \/ l = Len(Log) + 2
